@@ -53,6 +53,14 @@ func evalC13(c c13Case) *Failure {
 		conn.Store(tokenKey, tok)
 		return redis.NewOKMessage(), nil
 	})
+	srv.RegisterExexutor("FORGET", func(conn *redis.Conn, cmd string, args redis.Arguments) (*redis.Message, error) {
+		// the application drops everything it has stored on the connection (whole-map operations)
+		conn.Range(func(key, value any) bool {
+			conn.Delete(key)
+			return true
+		})
+		return redis.NewOKMessage(), nil
+	})
 	if c.Password != "" {
 		srv.SetPort(0)
 		srv.SetRequirePass(c.Password)
@@ -114,7 +122,7 @@ func evalC13(c c13Case) *Failure {
 		name := strings.ToUpper(string(*step.Req[0]))
 		desc := fmt.Sprintf("step %d (c%d: %s) answered %s", si, step.Conn, reqPtrString(step.Req), reply)
 		newCalls := rec.Snapshot()[before:]
-		if !cmdspec.Has(name) && name != "REMEMBER" {
+		if !cmdspec.Has(name) && name != "REMEMBER" && name != "FORGET" {
 			// a command this harness has no grammar for (registered by the server under test): what it shows its
 			// handler calls is its own business, but it must not run unauthorized and must leave the connection's state alone
 			if !me.auth && len(newCalls) > 0 {
@@ -172,6 +180,15 @@ func evalC13(c c13Case) *Failure {
 				me.token = string(*step.Req[1])
 			} else if !reply.IsError() {
 				return failf("c13|remember-unauthorized", "%s: %s on an unauthorized connection", what, desc)
+			}
+		case "FORGET":
+			if me.auth {
+				if !reply.Equal(resp.S("OK")) {
+					return failf("c13|forget-refused", "%s: %s", what, desc)
+				}
+				me.token = "" // the user data is gone; database and authorization are not user data
+			} else if !reply.IsError() {
+				return failf("c13|forget-unauthorized", "%s: %s on an unauthorized connection", what, desc)
 			}
 		case "CONFIG":
 			if me.auth && reply.IsError() {
@@ -444,8 +461,14 @@ sys:
 						c.Steps = append(c.Steps, c08Step{Conn: who, Req: r})
 					}
 				}
-			case 4, 5:
+			case 4:
 				r = []*resp.Bin{bp("REMEMBER"), bp(fmt.Sprintf("t%d-%d", who, i))}
+			case 5:
+				if rapid.Bool().Draw(rt, "forget") {
+					r = []*resp.Bin{bp("FORGET")}
+				} else {
+					r = []*resp.Bin{bp("REMEMBER"), bp(fmt.Sprintf("t%d-%d", who, i))}
+				}
 			default:
 				tpl := rapid.SampledFrom([][]string{{"GET", "k"}, {"SET", "k", "v"}, {"HGET", "h", "f"}, {"LPUSH", "l", "a"}, {"INCR", "n"}, {"MGET", "a", "b"}, {"ZCARD", "z"}}).Draw(rt, "data")
 				for _, a := range tpl {
